@@ -73,7 +73,7 @@ class ProgGen:
   def params(self, method=None):
     """Returns (param source, list of names)."""
     r = self.r
-    names = ["a", "b", "c", "d", "e", "x", "y", "z"]
+    names = ["a", "b", "c", "d", "e", "x", "y", "z", "u", "v", "w", "g"]
     r.shuffle(names)
     parts = []
     used = []
